@@ -41,6 +41,8 @@ func runC19(w *World, c *Check) {
 	c.Rule("C19.zeroing", "the verified data is the PAC with both signature fields zeroed: exactly [Offset, Offset+Size) replaced by a copy with bytes [4, 4+c) zero, in both signature cases", 6)
 	c.Rule("C19.sizes", "signature length per checksum type equals GetHMACBitLength()/8 of the etype that type selects", 5)
 	c.Rule("C19.faithful", "PACType.verify never returns (false, nil): ProcessPACInfoBuffers reports verify's error when it fails", 3)
+	c.Rule("C19.decode-error", "a PAC buffer that does not decode is an error: every buffer decoder returns nil only on the path on which ndr's Decode returned nil", 7)
+	ruleDecodeError(w, c, "C19.decode-error")
 	c.Rule("C19.dedup", "in GetGroupMembershipSIDs the already-present flag that guards an append is decided afresh for every SID: it is not carried from one SID of the list to the next", 2)
 	c.Rule("C19.report", "ADCredentials fields come from the same-named members of the verified KerbValidationInfo, only when processing succeeded", 22)
 
@@ -182,6 +184,22 @@ func runC19(w *World, c *Check) {
 					cst, isC := st.Val.(*ssa.Const)
 					ia, isIA := st.Addr.(*ssa.IndexAddr)
 					if !isC || !isIA || cst.Value == nil || cst.Value.String() != "0" {
+						continue
+					}
+					// the range form: sig := rb[4:4+c]; for i := range sig { sig[i] = 0 }
+					if m := compileRe(`^` + substParams(fn, `make\(\[\]byte, len\(b\)\)\[4:\(4 \+ (.*)\)\]`) + `$`).FindStringSubmatch(fa.R.R(ia.X)); m != nil {
+						if bo, isBo := ia.Index.(*ssa.BinOp); isBo && bo.Op == token.ADD {
+							phi, isPhi := bo.X.(*ssa.Phi)
+							one, isOne := constInt(bo.Y)
+							if isPhi && phi.Comment == "rangeindex" && isOne && one == 1 {
+								if iff, isIf := lastInstr(phi.Block()).(*ssa.If); isIf {
+									if cmp, isCmp := iff.Cond.(*ssa.BinOp); isCmp && cmp.Op == token.LSS && cmp.X == ssa.Value(bo) && fa.R.R(cmp.Y) == "len("+fa.R.R(ia.X)+")" && iff.Block().Succs[0] == b {
+										okZero = true
+										loopBound = m[1]
+									}
+								}
+							}
+						}
 						continue
 					}
 					if !fa.M(`make\(\[\]byte, len\(b\)\)`, fa.R.R(ia.X)) {
@@ -418,5 +436,28 @@ func rulePerItemFlag(w *World, c *Check, rule, fk string) {
 	}
 	if n == 0 {
 		c.Ok(rule, fk, "no-flag", w.Pos(fn.Pos()), "no append is guarded by a loop-carried flag (membership is decided per item, e.g. by a predicate)")
+	}
+}
+
+// ruleDecodeError: every function of package pac that runs the NDR decoder hands its failure on —
+// no exit with a possibly-nil error is reachable from the edge on which Decode's error is non-nil.
+func ruleDecodeError(w *World, c *Check, rule string) {
+	const dec = `github\.com/jcmturner/rpc/v2/ndr\.\(\*Decoder\)\.Decode\(.*\)`
+	for _, fn := range w.ModuleFuncs() {
+		if fn.Pkg == nil || !strings.HasSuffix(fn.Pkg.Pkg.Path(), "/pac") {
+			continue
+		}
+		fa := NewFuncAnRaw(w, fn)
+		if len(fa.Calls(`github\.com/jcmturner/rpc/v2/ndr\.\(\*Decoder\)\.Decode`)) == 0 {
+			continue
+		}
+		n := fn.Signature.Results().Len()
+		if n == 0 || fn.Signature.Results().At(n-1).Type().String() != "error" {
+			c.Fail(rule, FuncKey(fn), "decode-checked", w.Pos(fn.Pos()), "the decoder's error is returned", "the function has no error result")
+			continue
+		}
+		checkGuards(w, c, rule, FuncKey(fn), BoolErrSuccess(-1, n-1), []GuardSpec{
+			{Name: "decode-checked", Desc: "ndr Decode error ⇒ the function returns an error", Main: []GuardPat{EqPass("nil", dec), EqPass(dec, "nil")}},
+		})
 	}
 }
